@@ -4,8 +4,4 @@ import abci "github.com/cometbft/cometbft/abci/types"
 
 var _ abci.Event
 
-func (e *execState) checkWriteSets(bo *blockObs)                                              {}
 
-type linRecorder struct{}
-
-func newLinRecorder() *linRecorder { return &linRecorder{} }
